@@ -25,7 +25,7 @@ RULE = ('process programs (sync/async steps, waits with resume values, continuat
 ASSUMPTIONS = ['steps depend only on persisted state by construction (trace and scripts live in persisted members / ctx / inputs)',
                'WorkChains waiting on futures are not checkpoint points (they cannot be saved)']
 REQUIRED = ['restores', 'kinds/process', 'kinds/outline', 'transport/pickle', 'crash_in_wait', 'multi_restore', 'traces_compared', 'ctx_compared',
-            'inputs/none', 'inputs/empty', 'inputs/given', 'outline_nodes/if', 'outline_nodes/while', 'elif_or_else_body_crash', 'lost_work_restores', 'transport/mem-live', 'transport/pkfile-live']
+            'inputs/none', 'inputs/empty', 'inputs/given', 'outline_nodes/if', 'outline_nodes/while', 'elif_or_else_body_crash', 'lost_work_restores', 'transport/mem-live', 'transport/pkfile-live', 'transport/bundle-live']
 BOUNDS = {'quick': 'basic family + 12 random programs, 60 outlines, crash subsets <=2', 'thorough': '+150 random programs, 800 outlines, subsets <=3, persister/YAML transports'}
 
 
@@ -35,6 +35,9 @@ def _progs(tier, seed):
     progs = dict(programs.basic_programs())
     progs['reads_inputs'] = {'steps': [S(['cont', [], {}], yields=1, fx=[(0, ['inp', 'k'])]), S(['wait', 'w', None], sync=True, fx=[(0, ['inp', 'k'])]),
                                        S(['value', 1], yields=1, fx=[(1, ['inp', 'z'])])]}
+    # every step emits into the same nested output namespace (a checkpoint must not see the later emissions)
+    progs['nested_outs'] = {'steps': [S(['cont', [], {}], yields=1, fx=[(0, ['out', 'ns.a', 1])]), S(['cont', [], {}], sync=True, fx=[(0, ['out', 'ns.b', [2]])]),
+                                      S(['wait', 'w', None], sync=True, fx=[(0, ['out', 'ns.deep.c', 3])]), S(['value', 4], yields=1, fx=[(0, ['out', 'ns.d', 4])])]}
     progs['mutating'] = {'steps': [S(['cont', [[1, 2], {'a': 1}], {'kw': [3]}], sync=True), S(['cont', [[5]], {}], yields=1), S(['stop', 'r', False], sync=True)],
                          'mutate_args': True}
     for k in range(12 if tier == 'quick' else 150):
@@ -67,7 +70,7 @@ def gen_cases(tier, seed):
                 # checkpoints written by a persister; the writing instance runs on for 1-3 boundaries before the crash (lost work)
                 for cs in rng.sample(sets, min(len(sets), 6 if tier == 'quick' else 20)):
                     yield {'kind': 'process', 'name': name, 'program': prog, 'inputs': inputs, 'ctx': ctxprog, 'crash': cs,
-                           'transport': rng.choice(['mem-live', 'pkfile-live']), 'lag': rng.randint(0, 3)}
+                           'transport': rng.choice(['mem-live', 'pkfile-live', 'bundle-live']), 'lag': rng.randint(0, 3)}
     nout = 60 if tier == 'quick' else 800
     for i in range(nout):
         ast = outlines.random_ast(rng, rng.randint(1, 3), max_body=4)
@@ -84,7 +87,7 @@ def gen_cases(tier, seed):
             yield {'kind': 'outline', 'ast': ast, 'preds': preds, 'rets': rets, 'emit': i % 2 == 0, 'crash': cs, 'transport': rng.choice(transports)}
         for cs in rng.sample(sets, min(len(sets), 6 if tier == 'quick' else 12)):
             yield {'kind': 'outline', 'ast': ast, 'preds': preds, 'rets': rets, 'emit': i % 2 == 0, 'crash': cs,
-                   'transport': rng.choice(['mem-live', 'pkfile-live']), 'lag': rng.randint(0, 3)}
+                   'transport': rng.choice(['mem-live', 'pkfile-live', 'bundle-live']), 'lag': rng.randint(0, 3)}
 
 
 def _transport(kind, workdir):
@@ -158,7 +161,7 @@ def run_case(case):
         if ref.get('inconclusive'):
             return {'viol': [], 'obs': obs, 'inconclusive': 'reference:%s' % ref['inconclusive'], 'key': case, 'nontrivial': False}
         if case['transport'].endswith('-live'):
-            pers = plumpy.InMemoryPersister() if case['transport'] == 'mem-live' else plumpy.PicklePersister(workdir)
+            pers = {'mem-live': plumpy.InMemoryPersister, 'pkfile-live': lambda: plumpy.PicklePersister(workdir), 'bundle-live': lambda: None}[case['transport']]()
             r = persist.run_with_crashes(make, case['crash'], resume, persister=pers, lag=case['lag'])
             obs['lost_work_restores'] = int(case['lag'] > 0 and r.get('restores', 0) > 0)
         else:
@@ -175,6 +178,10 @@ def run_case(case):
     obs['crash_in_wait'] = sum(1 for e in r['log'] if e[0] == 'checkpoint' and e[2] == 'waiting')
     a, b = _summary(r), _summary(ref)
     viol = []
+    for nth, keys, now, then in r.get('restore_mismatches', [])[:1]:
+        viol.append(V('restored-state-differs', 'restored-state-differs:%s:%s' % ('+'.join(keys), label), 'the process loaded at restore %d reports %r, when the checkpoint '
+                      'was written the process reported %r (crash points %s, transport %s, lost boundaries %s)' % (nth, now, then, case['crash'], case['transport'], case.get('lag'))))
+    obs['restore_points_compared'] = r.get('restores', 0)
     obs['traces_compared'] = 1
     obs['ctx_compared'] = int(a['ctx'] is not None)
     if case['kind'] == 'outline':
